@@ -200,4 +200,27 @@ func extractC17b(l *lean) {
 	l.def("dagFramingDecodeCodec", "String", fmt.Sprintf("%q", dec), dec)
 	l.def("dagFramingEncodeCodec", "String", fmt.Sprintf("%q", enc), enc)
 	l.def("dagFramingTrimPredicate", "String", fmt.Sprintf("%q", trim), trim)
+
+	// ---- vcr/verifier: the case-folding guard of JSON-LD documents (ambiguousMember / foldRune / caseVariantMember)
+	_, svF := parseFile("vcr/verifier/signature_verifier.go")
+	foldExpr, foldBody, ambBody, cvBody := "MISSING", "MISSING", "MISSING", "MISSING"
+	if fd := funcDecl(svF, "ambiguousMember"); fd != nil {
+		ambBody = c17Src(fd.Body)
+		ast.Inspect(fd, func(n ast.Node) bool {
+			if as, ok := n.(*ast.AssignStmt); ok && len(as.Lhs) == 1 && len(as.Rhs) == 1 && exprString(as.Lhs[0]) == "folded" {
+				foldExpr = c17Src(as.Rhs[0])
+			}
+			return true
+		})
+	}
+	if fd := funcDecl(svF, "foldRune"); fd != nil {
+		foldBody = c17Src(fd.Body)
+	}
+	if fd := funcDecl(svF, "caseVariantMember"); fd != nil {
+		cvBody = c17Src(fd.Body)
+	}
+	l.def("ambiguousMemberFoldExpr", "String", fmt.Sprintf("%q", foldExpr), foldExpr)
+	l.def("foldRuneBody", "String", fmt.Sprintf("%q", foldBody), foldBody)
+	l.def("ambiguousMemberBody", "String", fmt.Sprintf("%q", ambBody), ambBody)
+	l.def("caseVariantMemberBody", "String", fmt.Sprintf("%q", cvBody), cvBody)
 }
